@@ -74,6 +74,17 @@ def main(argv: List[str]) -> int:
         if cls is None:
             continue
         base = mm.witness_props(d.props, True, 1)
+        # the other direction: a property that IS set is written, whatever its value compares equal to
+        try:
+            out_all = conv.unstructure(conv.structure(base, cls))
+        except Exception:
+            out_all = None  # other properties' business
+        if isinstance(out_all, dict):
+            toggles += 1
+            for p in d.props:
+                if p["name"] in base and base[p["name"]] is not None and p["name"] not in out_all:
+                    a = next((a.name for a in live.attrs.fields(cls) if (live.wire_name(cls, a.name) or a.name) == p["name"]), p["name"])
+                    run.violation(f"table:{d.pyname}.{a}:set-is-written", f"{d.pyname}.{a}: a property that is set (to {str(base[p['name']])[:60]}) is omitted from the output", {"input": base, "unstructured": out_all, "replay": f"structure then unstructure a {d.pyname} with every property set"}, True)
         for p in d.props:
             if expected_special(mm, d, p) or p.get("optional") or p.get("_absent"):
                 j = dict(base)
